@@ -17,8 +17,10 @@ DIMS = {
     "res_cfg": ["height", 128, 100],
     # every glyph's PNG has the same width, or each its own (metrics are per glyph, not per strike)
     "widths": ["same", "varying"],
+    # the line gap belongs to hhea / OS/2 only: strike size and placement do not move with it
+    "linegap": [0, 200],
 }
-K = {"quick": 3, "thorough": 8}  # 8 = the full product
+K = {"quick": 3, "thorough": 6}  # thorough: every state with <= 6 of the 10 dimensions off their default (130 072 states)
 INT8 = range(-128, 128)
 
 
@@ -52,7 +54,7 @@ def execute(dev):
     ws = [w] * len(seqs) if a["widths"] == "same" else [max(1, round(w * f)) for f in (0.7, 1.0, 1.35, 0.85)[: len(seqs)]]
     images = [pngs.png(ws[i], h, i) for i in range(len(seqs))]
     over = {"upem": upem, "ascender": asc, "descender": desc, "width": width, "color_format": fmt,
-            "bitmap_resolution": h if a["res_cfg"] == "height" else a["res_cfg"], "output_file": "x.ttf"}
+            "bitmap_resolution": h if a["res_cfg"] == "height" else a["res_cfg"], "output_file": "x.ttf", "linegap": a["linegap"]}
     # ---- reference model: what must be rejected -------------------------------------
     s = h / em  # exact pixels per font unit
     advs_units = [max(width, round(em * wi / h)) for wi in ws]
@@ -160,6 +162,6 @@ def run(report, tier, only=None):
     report.extra["deviation_bound"] = k
     report.rule = (
         "E1: all states with <= %d deviations over bitmap height (8) x aspect (5) x configured width (5) x metrics (6) x {cbdt, sbix} x glyph-order "
-        "shape (3) x number of glyphs (3) x configured bitmap_resolution (the image height / 128 / 100), built with the real _generate_color_font from generated PNGs; image bytes, ppem, placement judged with the "
+        "shape (4) x number of glyphs (3) x configured bitmap_resolution (the image height / 128 / 100) x per-glyph widths x linegap, built with the real _generate_color_font from generated PNGs; image bytes, ppem, placement judged with the "
         "exact pixel size, pixel advance, consecutive runs; unrepresentable cases must raise; distinct = format, #strikes, bitmap shape, width mode" % k
     )
